@@ -619,3 +619,646 @@ func c18ReportedMaps(w *World, v ssa.Value, out map[ssa.Value]string, depth int)
 		}
 	}
 }
+
+// ---------- the unknown-field scan: filter while collecting ------------------------------------------------------------
+//
+// The scan may be written as "delete the known keys, then collect what is left" or as "range over the map and collect
+// every key that is not a known one" (switch / if chain / slices.Contains over a constant list), into one accumulator
+// for both levels or into one per level. What the clause needs is the same in every spelling:
+//
+//	the slice returned has an element for every key of the map, except keys that are members of a CONSTANT set,
+//
+// and that constant set is then held to the same condition as the keys of the delete statements (JSON names of
+// ocispec.Descriptor at the descriptor level, "targetArtifact" at the payload level).
+//
+// c18KeyCollector decides the first half for one function G and one map (given by isM on the ranged operand):
+//
+//	(L1) G has a `range` loop over the map;
+//	(L2) the loop is left only through its header (no break / return / goto out of the body): every key gets an iteration;
+//	(L3) the body has append sites whose appended elements include the range key;
+//	(L4) an iteration that reaches the next one without passing such a site has passed the true edge of
+//	     `key == <string constant>` (or of slices.Contains(<constant list>, key)): the key is one of the constants F;
+//	(L5) what those sites appended is still in the slice returned: a forward must-analysis over G keeps, per program
+//	     point, the set S of slice values that were obtained from the result of the LATEST site execution by growth steps
+//	     only (append with the value as base or as spread operand, phi selecting such a value, slices.AppendSeq/Grow/Clip);
+//	     a site whose base is not in S empties S (the earlier keys are lost), any other definition of a value takes it
+//	     out of S; every return must return a member of S (or no site can have run on any path to it);
+//	(L6) no return is reachable from the entry without leaving the loop through its header: the loop is not bypassed.
+//
+// Under (L1)–(L6), for every key k of the map with k ∉ F some site appended k in k's iteration (L2, L4), and the value
+// returned descends from that site's result through growth steps only (L5, L6), so it has one element per such key: it
+// is empty only if every key of the map is in F. (Elements can be overwritten through an alias of the backing array, never
+// removed: the consumer of the scan tests len(result), which only growth steps change.)
+
+type c18Collect struct {
+	ok     bool
+	filter []string // F
+	why    string
+}
+
+func c18KeyCollector(w *World, G *ssa.Function, isM func(ssa.Value) bool) c18Collect {
+	last := c18Collect{why: "no range loop over the map"}
+	for _, rl := range rangeLoops(G) {
+		if _, isMap := rl.X.Type().Underlying().(*types.Map); !isMap || !isM(rl.X) {
+			continue
+		}
+		last = c18CollectLoop(w, G, rl)
+		if last.ok {
+			return last
+		}
+	}
+	return last
+}
+
+func c18IsRangeKey(v ssa.Value, rl rangeLoop) bool {
+	if ct, ok := v.(*ssa.ChangeType); ok {
+		v = ct.X
+	}
+	ex, ok := v.(*ssa.Extract)
+	return ok && ex.Tuple == ssa.Value(rl.Next) && ex.Index == 1
+}
+
+// c18AppendsKey: call is append(base, e1, …, en) (or append(base, lit...)) with one of the e_i the range key of rl.
+func c18AppendsKey(call *ssa.Call, rl rangeLoop) bool {
+	if calleeName(call) != "builtin:append" || len(call.Call.Args) != 2 {
+		return false
+	}
+	sl, ok := call.Call.Args[1].(*ssa.Slice)
+	if !ok {
+		return false
+	}
+	al, ok := sl.X.(*ssa.Alloc)
+	if !ok || al.Referrers() == nil {
+		return false
+	}
+	for _, r := range *al.Referrers() {
+		ia, ok := r.(*ssa.IndexAddr)
+		if !ok || ia.Referrers() == nil {
+			continue
+		}
+		for _, rr := range *ia.Referrers() {
+			if st, ok := rr.(*ssa.Store); ok && st.Addr == ssa.Value(ia) && c18IsRangeKey(st.Val, rl) {
+				return true
+			}
+		}
+	}
+	return false
+}
+
+// c18KeyIsConst: cond evaluating to truth means "the range key of rl is one of the returned string constants".
+func c18KeyIsConst(w *World, cond ssa.Value, truth bool, rl rangeLoop) ([]string, bool) {
+	return c18IsOneOfConsts(w, cond, truth, func(v ssa.Value) bool { return c18IsRangeKey(v, rl) }, 0)
+}
+
+// c18IsOneOfConsts: cond evaluating to truth means "the value recognised by isKey is one of the returned string
+// constants": `key == "c"`, `key != "c"` negated, slices.Contains(<constant list>, key), or a module predicate p(key)
+// that returns true only for constants (c18PredicateConsts).
+func c18IsOneOfConsts(w *World, cond ssa.Value, truth bool, isKey func(ssa.Value) bool, depth int) ([]string, bool) {
+	for {
+		u, ok := cond.(*ssa.UnOp)
+		if !ok || u.Op != token.NOT {
+			break
+		}
+		truth = !truth
+		cond = u.X
+	}
+	switch x := cond.(type) {
+	case *ssa.BinOp:
+		if (x.Op != token.EQL && x.Op != token.NEQ) || (x.Op == token.EQL) != truth {
+			return nil, false
+		}
+		var k *ssa.Const
+		if isKey(x.X) {
+			k, _ = x.Y.(*ssa.Const)
+		} else if isKey(x.Y) {
+			k, _ = x.X.(*ssa.Const)
+		}
+		if k == nil || k.Value == nil || k.Value.Kind() != constant.String {
+			return nil, false
+		}
+		return []string{constant.StringVal(k.Value)}, true
+	case *ssa.Call:
+		if !truth {
+			return nil, false
+		}
+		if calleeName(x) == "slices.Contains" && len(x.Call.Args) == 2 && isKey(x.Call.Args[1]) {
+			return c18ConstStringList(w, x.Call.Args[0])
+		}
+		if g := staticCallee(x); g != nil && w.IsProductFn(g) && g.Blocks != nil && len(g.FreeVars) == 0 && depth < 2 {
+			idx := -1
+			for i, a := range x.Call.Args {
+				if isKey(a) {
+					if idx >= 0 {
+						return nil, false
+					}
+					idx = i
+				}
+			}
+			if idx >= 0 && idx < len(g.Params) {
+				return c18PredicateConsts(w, g, idx, depth+1)
+			}
+		}
+	}
+	return nil, false
+}
+
+// c18PredicateConsts: the module predicate g returns true ONLY when its parameter #idx is one of the returned string
+// constants. Decided on g's CFG: E = the branch edges on which the parameter is known to be one of the constants
+// (c18IsOneOfConsts on the branch condition). A return that can be reached without an edge of E must return a value
+// that is itself false unless the parameter is a constant: the constant false, a comparison param == "c" (or another
+// recognised condition), or a phi each of whose operands is such a value or arrives over an edge that cannot be reached
+// without an edge of E.
+func c18PredicateConsts(w *World, g *ssa.Function, idx int, depth int) ([]string, bool) {
+	if g.Signature.Results().Len() != 1 || !types.Identical(g.Signature.Results().At(0).Type().Underlying(), types.Typ[types.Bool]) {
+		return nil, false
+	}
+	param := ssa.Value(g.Params[idx])
+	isKey := func(v ssa.Value) bool {
+		if ct, ok := v.(*ssa.ChangeType); ok {
+			v = ct.X
+		}
+		return v == param
+	}
+	var consts []string
+	reachB := map[int]bool{0: true}
+	reachE := map[edgeKey]bool{}
+	stack := []*ssa.BasicBlock{g.Blocks[0]}
+	for len(stack) > 0 {
+		b := stack[len(stack)-1]
+		stack = stack[:len(stack)-1]
+		iff, isIf := blockTerm(b).(*ssa.If)
+		for j, s := range b.Succs {
+			if isIf && len(b.Succs) == 2 && b.Succs[0] != b.Succs[1] {
+				if ks, ok := c18IsOneOfConsts(w, iff.Cond, j == 0, isKey, depth); ok {
+					consts = append(consts, ks...)
+					continue
+				}
+			}
+			reachE[edgeKey{b.Index, j}] = true
+			if !reachB[s.Index] {
+				reachB[s.Index] = true
+				stack = append(stack, s)
+			}
+		}
+	}
+	var safe func(v ssa.Value, d int) bool
+	safe = func(v ssa.Value, d int) bool {
+		if d > 6 {
+			return false
+		}
+		if k, ok := v.(*ssa.Const); ok {
+			return k.Value != nil && k.Value.Kind() == constant.Bool && !constant.BoolVal(k.Value)
+		}
+		if ph, ok := v.(*ssa.Phi); ok {
+			for i, e := range ph.Edges {
+				p := ph.Block().Preds[i]
+				open := false
+				for j, s := range p.Succs {
+					if s == ph.Block() && reachE[edgeKey{p.Index, j}] {
+						open = true
+					}
+				}
+				if open && !safe(e, d+1) {
+					return false
+				}
+			}
+			return true
+		}
+		if ks, ok := c18IsOneOfConsts(w, v, true, isKey, depth); ok {
+			consts = append(consts, ks...)
+			return true
+		}
+		return false
+	}
+	n := 0
+	for _, b := range g.Blocks {
+		r, ok := blockTerm(b).(*ssa.Return)
+		if !ok {
+			continue
+		}
+		n++
+		if reachB[b.Index] && (len(r.Results) != 1 || !safe(r.Results[0], 0)) {
+			return nil, false
+		}
+	}
+	return consts, n > 0
+}
+
+func c18CollectLoop(w *World, G *ssa.Function, rl rangeLoop) c18Collect {
+	lb := loopBlocks(rl.Header)
+	// (L2)
+	for bi := range lb {
+		b := G.Blocks[bi]
+		if b == rl.Header {
+			continue
+		}
+		for _, s := range b.Succs {
+			if !lb[s.Index] {
+				return c18Collect{why: "the loop over the map can be left from its body at " + w.InstrPos(blockTerm(b)) + ": later keys get no iteration"}
+			}
+		}
+	}
+	if len(rl.Header.Succs) != 2 || lb[rl.Header.Succs[1].Index] {
+		return c18Collect{why: "unexpected loop shape"}
+	}
+	// (L3)
+	sites := map[*ssa.Call]bool{}
+	siteBlock := map[int]bool{}
+	for bi := range lb {
+		for _, in := range G.Blocks[bi].Instrs {
+			if call, ok := in.(*ssa.Call); ok && c18AppendsKey(call, rl) {
+				sites[call] = true
+				siteBlock[bi] = true
+			}
+		}
+	}
+	if len(sites) == 0 {
+		return c18Collect{why: "the loop over the map does not append its key"}
+	}
+	// (L4)
+	var filter []string
+	seen := map[int]bool{rl.Body.Index: true}
+	stack := []*ssa.BasicBlock{rl.Body}
+	for len(stack) > 0 {
+		b := stack[len(stack)-1]
+		stack = stack[:len(stack)-1]
+		if siteBlock[b.Index] {
+			continue // the key has been appended on this path
+		}
+		iff, isIf := blockTerm(b).(*ssa.If)
+		for j, s := range b.Succs {
+			if isIf && len(b.Succs) == 2 && b.Succs[0] != b.Succs[1] {
+				if ks, ok := c18KeyIsConst(w, iff.Cond, j == 0, rl); ok {
+					filter = append(filter, ks...)
+					continue // on this edge the key is one of the constants
+				}
+			}
+			if s == rl.Header {
+				return c18Collect{why: "an iteration can skip the append at " + w.InstrPos(blockTerm(b)) + " without the key having been compared equal to a constant: some keys are not reported"}
+			}
+			if !seen[s.Index] {
+				seen[s.Index] = true
+				stack = append(stack, s)
+			}
+		}
+	}
+	// (L6)
+	{
+		seen := map[int]bool{0: true}
+		stack := []*ssa.BasicBlock{G.Blocks[0]}
+		for len(stack) > 0 {
+			b := stack[len(stack)-1]
+			stack = stack[:len(stack)-1]
+			if _, isRet := blockTerm(b).(*ssa.Return); isRet {
+				return c18Collect{why: "the return at " + w.InstrPos(blockTerm(b)) + " is reachable without running the loop over the map"}
+			}
+			for j, s := range b.Succs {
+				if b == rl.Header && j == 1 {
+					continue
+				}
+				if !seen[s.Index] {
+					seen[s.Index] = true
+					stack = append(stack, s)
+				}
+			}
+		}
+	}
+	// (L5)
+	if ok, why := c18AccumulatorKept(w, G, sites); !ok {
+		return c18Collect{why: why}
+	}
+	return c18Collect{ok: true, filter: filter}
+}
+
+// c18AccSet: a set of slice values; top = "no site has run yet": every value qualifies.
+type c18AccSet struct {
+	set bool // the state has been computed
+	top bool
+	m   map[ssa.Value]bool
+}
+
+func (s c18AccSet) has(v ssa.Value) bool { return s.top || s.m[v] }
+
+func (s c18AccSet) clone() c18AccSet {
+	n := c18AccSet{set: s.set, top: s.top, m: map[ssa.Value]bool{}}
+	for v := range s.m {
+		n.m[v] = true
+	}
+	return n
+}
+
+func (s c18AccSet) equal(o c18AccSet) bool {
+	if s.set != o.set || s.top != o.top || len(s.m) != len(o.m) {
+		return false
+	}
+	for v := range s.m {
+		if !o.m[v] {
+			return false
+		}
+	}
+	return true
+}
+
+// c18GrowthOperands: the operands v such that the instruction's value has every element of v.
+func c18GrowthOperands(in ssa.Instruction) []ssa.Value {
+	call, ok := in.(*ssa.Call)
+	if !ok {
+		return nil
+	}
+	switch calleeName(call) {
+	case "builtin:append":
+		return call.Call.Args
+	case "slices.AppendSeq", "slices.Grow", "slices.Clip":
+		if len(call.Call.Args) > 0 {
+			return call.Call.Args[:1]
+		}
+	}
+	return nil
+}
+
+// c18AccumulatorKept is the must-analysis (L5).
+func c18AccumulatorKept(w *World, G *ssa.Function, sites map[*ssa.Call]bool) (bool, string) {
+	out := make([]c18AccSet, len(G.Blocks))
+	atRet := map[*ssa.Return]c18AccSet{}
+	for round := 0; ; round++ {
+		if round > 4*len(G.Blocks)+8 {
+			return false, "the accumulator analysis did not stabilise"
+		}
+		changed := false
+		for _, b := range G.Blocks {
+			var in c18AccSet
+			if b.Index == 0 {
+				in = c18AccSet{set: true, top: true, m: map[ssa.Value]bool{}}
+			}
+			for i, p := range b.Preds {
+				e := out[p.Index]
+				if !e.set {
+					continue
+				}
+				e = e.clone()
+				if !e.top {
+					// the phis of b are evaluated together, on the state of the edge
+					add := []ssa.Value{}
+					for _, ins := range b.Instrs {
+						ph, ok := ins.(*ssa.Phi)
+						if !ok {
+							break
+						}
+						if i < len(ph.Edges) && e.m[ph.Edges[i]] {
+							add = append(add, ph)
+						}
+					}
+					for _, ins := range b.Instrs {
+						ph, ok := ins.(*ssa.Phi)
+						if !ok {
+							break
+						}
+						delete(e.m, ph)
+					}
+					for _, v := range add {
+						e.m[v] = true
+					}
+				}
+				if !in.set {
+					in = e
+					continue
+				}
+				// meet: intersection (top is neutral)
+				switch {
+				case e.top:
+				case in.top:
+					in = e
+				default:
+					for v := range in.m {
+						if !e.m[v] {
+							delete(in.m, v)
+						}
+					}
+				}
+			}
+			if !in.set {
+				continue
+			}
+			s := in
+			for _, ins := range b.Instrs {
+				if _, isPhi := ins.(*ssa.Phi); isPhi {
+					continue
+				}
+				if r, isRet := ins.(*ssa.Return); isRet {
+					atRet[r] = s.clone()
+					continue
+				}
+				v, isVal := ins.(ssa.Value)
+				if !isVal {
+					continue
+				}
+				if call, ok := ins.(*ssa.Call); ok && sites[call] {
+					if s.has(call.Call.Args[0]) {
+						s = c18AccSet{set: true, m: map[ssa.Value]bool{v: true}}
+					} else {
+						s = c18AccSet{set: true, m: map[ssa.Value]bool{}}
+					}
+					continue
+				}
+				if s.top {
+					continue
+				}
+				grows := false
+				for _, o := range c18GrowthOperands(ins) {
+					if s.m[o] {
+						grows = true
+					}
+				}
+				if grows {
+					s.m[v] = true
+				} else {
+					delete(s.m, v)
+				}
+			}
+			if !s.equal(out[b.Index]) {
+				out[b.Index] = s
+				changed = true
+			}
+		}
+		if !changed {
+			break
+		}
+	}
+	n := 0
+	for _, b := range G.Blocks {
+		r, ok := blockTerm(b).(*ssa.Return)
+		if !ok {
+			continue
+		}
+		s, reached := atRet[r]
+		if !reached {
+			continue // dead code
+		}
+		n++
+		if len(r.Results) != 1 || !s.has(r.Results[0]) {
+			return false, "the slice returned at " + w.InstrPos(r) + " need not hold the keys appended in the loop (the accumulator is reset, replaced or an older version of it is returned)"
+		}
+	}
+	if n == 0 {
+		return false, "no return"
+	}
+	return true, ""
+}
+
+// c18InnerMaps: the comma-ok assertions of <outer map>["targetArtifact"] to a map type in SC (the descriptor level).
+func c18InnerMaps(SC *ssa.Function, outerMap ssa.Value) map[ssa.Value]bool {
+	out := map[ssa.Value]bool{}
+	if outerMap == nil {
+		return out
+	}
+	for _, b := range SC.Blocks {
+		for _, in := range b.Instrs {
+			ta, ok := in.(*ssa.TypeAssert)
+			if !ok || !ta.CommaOk {
+				continue
+			}
+			if _, isMap := ta.AssertedType.Underlying().(*types.Map); !isMap {
+				continue
+			}
+			x := ta.X
+			if ex, ok := x.(*ssa.Extract); ok && ex.Index == 0 {
+				x = ex.Tuple
+			}
+			if lk, ok := x.(*ssa.Lookup); ok && c18MapOrigin(lk.X) == outerMap && desc(lk.Index) == `const:"targetArtifact"` {
+				out[ta] = true
+			}
+		}
+	}
+	return out
+}
+
+// ---------- raw path: where the response's certificate chain is parsed ----------------------------------------------------
+//
+// The loop that parses the chain may sit in the function that calls GenerateSignature or in a helper it calls, and the
+// helper may be handed the chain, the whole response, or more than that. The loop is found by VALUE: a slice loop on
+// the call tree whose ranged operand, rendered in the caller's frame, is <response>.CertificateChain.
+
+// c18ChainLoopsAt lists those loops with the function holding each (the root itself or a helper).
+type c18ChainSite struct {
+	F    *ssa.Function
+	Loop sliceLoop
+}
+
+func c18ChainLoopsAt(fr *c18Frame, chain string) []c18ChainSite {
+	var out []c18ChainSite
+	for _, f := range fr.tree {
+		if f.Parent() != nil {
+			continue
+		}
+		for _, sl := range sliceLoops(f) {
+			if fr.val(sl.X) == chain {
+				out = append(out, c18ChainSite{f, sl})
+			}
+		}
+	}
+	return out
+}
+
+// c18ChainLoopOK is the decision of c18ChainParser for a loop given by value instead of by "ranges over parameter 0":
+// every completed iteration passes ParseCertificate(chain[i]) err == nil, the parsed certificate is stored per iteration,
+// no success exit of F is reachable from inside the loop or around it, and result #retIdx of every success exit is the
+// slice the certificates were stored in. It holds for the function that has the loop, whichever that is: with the loop
+// in the caller of the plugin, "the parser fails closed" and "the caller tests the parser's error" are the same fact
+// (there is no error to hand over), so one decision answers both obligations.
+func c18ChainLoopOK(w *World, F *ssa.Function, sl sliceLoop, retIdx int) (bool, ssa.Value, string) {
+	fi := w.Info(F)
+	pn := desc(sl.X)
+	labels, _ := fi.mustPassBetween([]int{sl.Body.Index}, map[int]bool{sl.Header.Index: true})
+	_, gate := hasLabel(labels, "EQ(call:crypto/x509.ParseCertificate("+pn+"[", "#err,nil)")
+	stored := false
+	var dst ssa.Value
+	for bi := range loopBlocks(sl.Header) {
+		for _, in := range F.Blocks[bi].Instrs {
+			switch x := in.(type) {
+			case *ssa.Store:
+				if strings.HasPrefix(desc(x.Val), "call:crypto/x509.ParseCertificate("+pn+"[") && strings.HasSuffix(desc(x.Val), "#0") {
+					if ia, ok := x.Addr.(*ssa.IndexAddr); ok {
+						stored, dst = true, ia.X
+					}
+				}
+			case *ssa.Call:
+				if bi, ok := x.Call.Value.(*ssa.Builtin); ok && bi.Name() == "append" && strings.Contains(desc(x.Call.Args[1]), "call:crypto/x509.ParseCertificate("+pn+"[") {
+					stored, dst = true, x
+				}
+			}
+		}
+	}
+	wit := fi.successWitness(Mode{Kind: mErr}, []state{{sl.Body.Index, 0, -1}}, backEdges(sl.Header))
+	cut := map[edgeKey]bool{}
+	cutInto(fi, sl.Header, cut)
+	wit2 := fi.successWitness(Mode{Kind: mErr}, entryState(), cut)
+	okRet := dst != nil
+	s := w.Summarize(F, Mode{Kind: mErr})
+	if len(s.Exits) == 0 {
+		okRet = false
+	}
+	for _, ex := range s.Exits {
+		if retIdx >= len(ex.Ret.Results) {
+			okRet = false
+			continue
+		}
+		r := ex.Ret.Results[retIdx]
+		if dst != nil && r != dst {
+			if ph, ok := r.(*ssa.Phi); !ok || !phiHas(ph, dst) {
+				okRet = false
+			}
+		}
+	}
+	ok := gate && stored && wit == nil && wit2 == nil && okRet
+	return ok, dst, fmt.Sprintf("parse gate per element=%v stored=%v success from inside loop=%v bypass=%v returns parsed slice=%v", gate, stored, wit != nil, wit2 != nil, okRet)
+}
+
+// c18InnerLevel: v is the descriptor-level map: the value half of one of the assertions `inner`, or a phi of that value
+// and nil in which nil arrives only over the false edge of the ok-test of that very assertion or of the comma-ok lookup
+// that feeds it (`if member, present := m["targetArtifact"]; present { d, _ = member.(map…) }`): nil stands for "there
+// is no descriptor-level map", in which case that level has no keys to report.
+func c18InnerLevel(v ssa.Value, inner map[ssa.Value]bool) bool {
+	if inner[c18MapOrigin(v)] {
+		return true
+	}
+	ph, ok := v.(*ssa.Phi)
+	if !ok {
+		return false
+	}
+	var ta *ssa.TypeAssert
+	for _, e := range ph.Edges {
+		if o, ok := c18MapOrigin(e).(*ssa.TypeAssert); ok && inner[o] && (ta == nil || ta == o) {
+			ta = o
+		} else if !isNilConst(e) {
+			return false
+		}
+	}
+	if ta == nil {
+		return false
+	}
+	okOf := func(cond ssa.Value) bool {
+		ex, isEx := cond.(*ssa.Extract)
+		if !isEx || ex.Index != 1 {
+			return false
+		}
+		if ex.Tuple == ssa.Value(ta) {
+			return true
+		}
+		if x, isEx := ta.X.(*ssa.Extract); isEx && x.Tuple == ex.Tuple {
+			_, isLookup := ex.Tuple.(*ssa.Lookup)
+			return isLookup
+		}
+		return false
+	}
+	for i, e := range ph.Edges {
+		if !isNilConst(e) {
+			continue
+		}
+		p := ph.Block().Preds[i]
+		iff, isIf := blockTerm(p).(*ssa.If)
+		if !isIf || len(p.Succs) != 2 || p.Succs[1] != ph.Block() || p.Succs[0] == ph.Block() || !okOf(iff.Cond) {
+			return false
+		}
+	}
+	return true
+}
